@@ -154,7 +154,7 @@ func (a *BigInt) Float() (Float, error) {
 }
 
 func (a *BigInt) M__neg__() (Object, error) {
-	return (*BigInt)(new(big.Int).Neg((*big.Int)(a))), nil
+	return (*BigInt)(new(big.Int).Neg((*big.Int)(a))).MaybeInt(), nil
 }
 
 func (a *BigInt) M__pos__() (Object, error) {
@@ -326,6 +326,9 @@ func (a *BigInt) pow(b, m *BigInt) (Object, error) {
 		if m != nil {
 			return nil, ExceptionNewf(TypeError, "pow() 2nd argument cannot be negative when 3rd argument specified")
 		}
+		if (*big.Int)(a).Sign() == 0 {
+			return nil, ExceptionNewf(ZeroDivisionError, "0 cannot be raised to a negative power")
+		}
 		fa, err := a.Float()
 		if err != nil {
 			return nil, err
@@ -336,7 +339,15 @@ func (a *BigInt) pow(b, m *BigInt) (Object, error) {
 		}
 		return fa.M__pow__(fb, None)
 	}
-	return (*BigInt)(new(big.Int).Exp((*big.Int)(a), (*big.Int)(b), (*big.Int)(m))).MaybeInt(), nil
+	if m != nil && (*big.Int)(m).Sign() == 0 {
+		return nil, ExceptionNewf(ValueError, "pow() 3rd argument cannot be 0")
+	}
+	r := new(big.Int).Exp((*big.Int)(a), (*big.Int)(b), (*big.Int)(m))
+	if m != nil && (*big.Int)(m).Sign() < 0 && r.Sign() != 0 {
+		// math/big reduces modulo |m|; Python's result takes the sign of the modulus
+		r.Add(r, (*big.Int)(m))
+	}
+	return (*BigInt)(r).MaybeInt(), nil
 }
 
 func (a *BigInt) M__pow__(other, modulus Object) (Object, error) {
